@@ -484,3 +484,88 @@ func observeTextIndependence(pluginBin, out string) []*Observation {
 	}
 	return res
 }
+
+// ---------- C10 / C11 beyond D: a message declared inside another message ----------
+
+// observeNestedDecl: nested message declarations are outside the fragment D (no struct-level harness is
+// generated for them); this observation only looks at the schema text the real plugin emits: options
+// keyed Inner.field (the proto name of the nested-declared message) reach the fields of that message.
+func observeNestedDecl(pluginBin, out string) []*Observation {
+	o := &Observation{Name: "N-nested-declaration", Mode: "nested"}
+	inner := msg("Inner", nil, fld("token", TString), fld("note", TString), fld("plain", TString))
+	outer := msg("Outer", nil, fld("creds", TMessage).tn("."+pkgName+".Outer.Inner"), fld("backup", TMessage).tn("."+pkgName+".Outer.Inner").rep(), fld("side_token", TString))
+	outer.DescriptorProto.NestedType = append(outer.DescriptorProto.NestedType, inner.DescriptorProto)
+	file := (&FileSpec{Name: "p.proto", Msgs: []*M{outer}}).build()
+	cfg := baseConfig("Outer")
+	cfg.SensitiveFields = []string{"Inner.token"}
+	cfg.ComputedFields = []string{"Inner.note"}
+	cfg.RequiredFields = []string{"Outer.side_token", "Outer.creds.plain"}
+	dir := filepath.Join(out, o.Name)
+	cfgPath := filepath.Join(dir, "cfg.yaml")
+	writeFile(cfgPath, cfg.yaml())
+	req := buildRequest(file, "config="+cfgPath)
+	o.Request = filepath.Join(dir, "req.bin")
+	writeFile(o.Request, req)
+	resp, err := runPlugin(pluginBin, req, filepath.Join(dir, "plugin.log"))
+	if err != nil || len(resp.File) != 1 {
+		o.Failures = append(o.Failures, fmt.Sprintf("plugin failed: %v", err))
+		return []*Observation{o}
+	}
+	fset := token.NewFileSet()
+	f, perr := parser.ParseFile(fset, "gen.go", resp.File[0].GetContent(), 0)
+	if perr != nil {
+		o.Failures = append(o.Failures, "generated file does not parse: "+perr.Error())
+		return []*Observation{o}
+	}
+	// flags[attribute name] = set of boolean schema fields that are true, over all occurrences in GenSchemaOuter
+	type occ map[string]bool
+	flags := map[string][]occ{}
+	for _, dcl := range f.Decls {
+		fd, ok := dcl.(*ast.FuncDecl)
+		if !ok || fd.Name.Name != "GenSchemaOuter" {
+			continue
+		}
+		ast.Inspect(fd, func(n ast.Node) bool {
+			kv, ok := n.(*ast.KeyValueExpr)
+			if !ok {
+				return true
+			}
+			key, ok := kv.Key.(*ast.BasicLit)
+			cl, ok2 := kv.Value.(*ast.CompositeLit)
+			if !ok || !ok2 || key.Kind != token.STRING {
+				return true
+			}
+			oc := occ{}
+			for _, el := range cl.Elts {
+				if e, ok := el.(*ast.KeyValueExpr); ok {
+					if id, ok := e.Key.(*ast.Ident); ok {
+						if v, ok := e.Value.(*ast.Ident); ok && v.Name == "true" {
+							oc[id.Name] = true
+						}
+					}
+				}
+			}
+			name := strings.Trim(key.Value, "\"")
+			flags[name] = append(flags[name], oc)
+			return true
+		})
+	}
+	expect := func(attr, flag string, want bool, n int) {
+		occs := flags[attr]
+		if len(occs) != n {
+			o.Failures = append(o.Failures, fmt.Sprintf("attribute %q occurs %d times in GenSchemaOuter, want %d", attr, len(occs), n))
+			return
+		}
+		for _, oc := range occs {
+			if oc[flag] != want {
+				o.Failures = append(o.Failures, fmt.Sprintf("attribute %q: %s is %v, want %v (option keyed by the proto name of the nested-declared message)", attr, flag, oc[flag], want))
+				return
+			}
+		}
+	}
+	expect("token", "Sensitive", true, 2)
+	expect("note", "Computed", true, 2)
+	expect("plain", "Sensitive", false, 2)
+	expect("side_token", "Required", true, 1)
+	return []*Observation{o}
+}
